@@ -107,6 +107,9 @@ class FieldArrayModel(FieldCompositeModel):
                 self.width,
                 self.is_signed,
                 self.is_declared_rand))
+        # Elements created while the array is being randomized (resizing) 
+        # are random in that call too
+        ret.set_used_rand(self.is_used_rand, 1)
         # Update the size
         self._set_size(len(self.field_l))
         return ret
